@@ -914,10 +914,13 @@ def _refresh_elementwise_output_shape(node: ir.Node) -> None:
     for iv in ins:
         if iv is None:
             continue
-        if _is_scalar_const_value(iv):
-            continue
         dims = _shape_dims_seq(iv.shape)
         if dims is None:
+            continue
+        # A size-1 constant still takes part in broadcasting when its rank is
+        # higher than the other operands' ((3,) with a (1, 1) constant is (1, 3));
+        # a rank-0 one merges away by itself.
+        if _is_scalar_const_value(iv) and len(dims) <= 1:
             continue
         candidate_shapes.append(dims)
     merged = _broadcast_shape_dims(candidate_shapes)
